@@ -11,6 +11,11 @@ LEVEL = "model_checking"
 PID = "C04"
 
 
+# comparison of a fantasy model with conditioning from scratch: direct (Cholesky) algebra for the default strategy; the KISS-GP update
+# goes through root decompositions of interpolated operators and agrees to ~2e-8 absolute on O(0.1) values (measured over the thorough tier)
+TOL = {"exact": (1e-7, 1e-9), "kiss": (1e-6, 1e-8)}
+
+
 def tla(v):
     if isinstance(v, bool):
         return "TRUE" if v else "FALSE"
@@ -240,10 +245,10 @@ def run_config(torch, gpytorch, settings, _verif, c):
         if not ok:
             return fail("fantasy-predict-raises", fp)
         rp = predict(fresh, xs)
-        g1, w1 = core.close(fp[0], rp[0], 1e-7, 1e-9)
+        g1, w1 = core.close(fp[0], rp[0], *TOL[kind])
         if not g1:
             return fail("mean", "fantasy mean differs from conditioning on the concatenated data: " + w1)
-        g2, w2 = core.close(fp[1], rp[1], 1e-7, 1e-9)
+        g2, w2 = core.close(fp[1], rp[1], *TOL[kind])
         if not g2:
             return fail("covariance", "fantasy covariance differs from conditioning on the concatenated data: " + w2)
         # (2) carried solves vs recomputation from the full data
@@ -423,7 +428,7 @@ def run_tree_config(torch, gpytorch, settings, c):
         first = "its first evaluation" if not t["evaluated"] else "re-evaluated"
         t["evaluated"] = True
         for nm, a, b in (("mean", fp[0], rp[0]), ("covariance", fp[1], rp[1])):
-            good, why = core.close(a, b, 1e-7, 1e-9)
+            good, why = core.close(a, b, *TOL[kind])
             if not good:
                 return fail(nm + ("/first-evaluation-after-it-was-fantasized" if (first.startswith("its") and t.get("children")) else ""),
                             "model %d (%s, %s, %d children): %s differs from conditioning on its data from scratch: %s" % (
